@@ -435,25 +435,25 @@ Record case := {
   c_steps : list ostep;
   c_done : list bool;            (* per actor: observed finished *)
   c_frames : list (N * N);       (* side-effects frames on the thread, oldest first: (actor, call) *)
-  c_marks : list (N * N)         (* marker file, oldest first: (actor, 0 enter | 1 exit) *)
+  c_marks : list (N * N)         (* marker file, oldest first: (actor * 256 + call, 0 enter | 1 exit) *)
 }.
 
 Definition pairN_eqb (x y : N * N) : bool := N.eqb (fst x) (fst y) && N.eqb (snd x) (snd y).
 
 (* the marker kinds: actors whose tool is an instrumented shell command (harness side knowledge is
    passed as the list of marking actors) *)
+Definition mkey (i : nat) (k : N) : N := N.of_nat i * 256 + k.
+
 Fixpoint marks_of (markers : list N) (tr : list event) : list (N * N) :=   (* newest first *)
   match tr with
   | [] => []
   | (i, ins) :: r =>
       let rest := marks_of markers r in
-      if existsb (N.eqb (N.of_nat i)) markers then
-        match ins with
-        | IStart _ _ => (N.of_nat i, 0) :: rest
-        | IEnd _ _ _ => (N.of_nat i, 1) :: rest
-        | _ => rest
-        end
-      else rest
+      match ins with
+      | IStart k _ => if existsb (N.eqb (mkey i k)) markers then (mkey i k, 0) :: rest else rest
+      | IEnd k _ _ => if existsb (N.eqb (mkey i k)) markers then (mkey i k, 1) :: rest else rest
+      | _ => rest
+      end
   end.
 
 Definition markers_of_case (c : case) : list N :=
